@@ -499,6 +499,8 @@ func (db *MultiBucketBackend) PutObject(
 
 	f, err := db.bucketFs.Create(objectFilePath)
 	if err != nil {
+		// Do not leave the directories made for this key behind:
+		db.removeEmptyDirsLocked(bucketName, path.Dir(objectPath))
 		return result, err
 	}
 
@@ -584,10 +586,16 @@ func (db *MultiBucketBackend) deleteObjectLocked(bucketName, objectName string) 
 		return err
 	}
 
-	// Remove the directories the deleted key leaves empty, up to (but not
-	// including) the bucket's own directory; otherwise they keep showing up as
-	// common prefixes and keep the bucket from being deleted.
-	for dir := path.Dir(fullPath); strings.HasPrefix(dir, bucketName+"/"); dir = path.Dir(dir) {
+	db.removeEmptyDirsLocked(bucketName, path.Dir(fullPath))
+
+	return nil
+}
+
+// removeEmptyDirsLocked removes dir and its parents while they are empty, up to
+// (but not including) the bucket's own directory; otherwise they keep showing
+// up as common prefixes and keep the bucket from being deleted.
+func (db *MultiBucketBackend) removeEmptyDirsLocked(bucketName, dir string) {
+	for ; strings.HasPrefix(dir, bucketName+"/"); dir = path.Dir(dir) {
 		entries, err := afero.ReadDir(db.bucketFs, filepath.FromSlash(dir))
 		if err != nil || len(entries) > 0 {
 			break
@@ -596,8 +604,6 @@ func (db *MultiBucketBackend) deleteObjectLocked(bucketName, objectName string) 
 			break
 		}
 	}
-
-	return nil
 }
 
 func (db *MultiBucketBackend) DeleteMulti(bucketName string, objects ...string) (result gofakes3.MultiDeleteResult, rerr error) {
